@@ -67,6 +67,12 @@ LineTextOf(l) == InlPart(l) \o CapPart(l) \o JoinSemi(l.extra)
 
 \* group `g` of pattern `p` for line l: [ok, s]; "nomatch" when the pattern does not match at all
 GroupOf(l, ref) ==
+  IF "pats" \in DOMAIN l THEN
+     \* a recorded line (Trace_Extract): per pattern name what the regex crate itself reported -- m: the pattern matched (always, in split mode),
+     \* gs: group 0 (the whole match / the whole line) followed by the groups (the split fields)
+     (LET pr == l.pats[ref.p]
+      IN IF ~pr.m THEN NoMatchG ELSE IF ref.g + 1 <= Len(pr.gs) THEN (IF pr.gs[ref.g + 1].ok THEN pr.gs[ref.g + 1] ELSE NoGroup) ELSE NoGroup)
+  ELSE
   CASE ref.p = "p" -> IF ~l.cap.m THEN NoMatchG
                       ELSE IF ref.g = 0 THEN G(<<80, 58>> \o CapText(l.cap.gs, 1))
                       ELSE IF ref.g <= Len(l.cap.gs) THEN l.cap.gs[ref.g] ELSE NoGroup
@@ -169,7 +175,7 @@ ExtractJson(col, l) ==
 
 \* ---- one column, one row ---------------------------------------------------------------------------
 TrimS(s) ==
-  LET ws(c) == c \in {32, 9, 10, 13, 11, 12, 133, 160, 8195, 8232, 12288}      \* whitespace in the Unicode sense (White_Space), as far as the menus use it
+  LET ws(c) == IsWhiteSpace(c)      \* whitespace in the Unicode sense (White_Space)
       RECURSIVE lt(_) lt(x) == IF x # <<>> /\ ws(Head(x)) THEN lt(Tail(x)) ELSE x
       RECURSIVE rt(_) rt(x) == IF x # <<>> /\ ws(x[Len(x)]) THEN rt(SubSeq(x, 1, Len(x) - 1)) ELSE x
   IN rt(lt(s))
